@@ -9,6 +9,7 @@ import (
 	"github.com/pingcap/kvproto/pkg/metapb"
 	"github.com/pingcap/kvproto/pkg/pdpb"
 	"github.com/tikv/pd/server/core"
+	"github.com/tikv/pd/server/core/storelimit"
 	"verif/harness/lib/kvx"
 )
 
@@ -37,6 +38,7 @@ type step struct {
 	StartTS      int64                `json:"start_ts,omitempty"`
 	DeployPath   string               `json:"deploy_path,omitempty"`
 	Variation    string               `json:"variation,omitempty"`
+	BigLabels    int                  `json:"generated_labels,omitempty"` // n labels k000000=v ... generated at execution
 	Labels       []*metapb.StoreLabel `json:"labels,omitempty"`
 	Force        bool                 `json:"force,omitempty"`
 	Destroyed    bool                 `json:"physically_destroyed,omitempty"`
@@ -437,7 +439,11 @@ func (e *env) exec(st *step) {
 	var hdr *pdpb.ResponseHeader
 	switch st.Cmd {
 	case "put":
-		store := &metapb.Store{Id: st.ID, Address: st.Addr, Version: st.Version, Labels: cloneLabels(st.Labels), State: st.ReqState,
+		labels := cloneLabels(st.Labels)
+		for i := 0; i < st.BigLabels; i++ {
+			labels = append(labels, &metapb.StoreLabel{Key: fmt.Sprintf("k%06d", i), Value: "v"})
+		}
+		store := &metapb.Store{Id: st.ID, Address: st.Addr, Version: st.Version, Labels: labels, State: st.ReqState,
 			PhysicallyDestroyed: st.ReqDestroyed, StatusAddress: st.StatusAddr, PeerAddress: st.PeerAddr, GitHash: st.GitHash,
 			StartTimestamp: st.StartTS, DeployPath: st.DeployPath}
 		if st.Via == "grpc" {
@@ -463,6 +469,14 @@ func (e *env) exec(st *step) {
 		err = e.rc.UpdateStoreLabels(st.ID, cloneLabels(st.Labels), st.Force)
 	case "rmtomb":
 		err = e.rc.RemoveTombStoneRecords()
+	case "attach": // operator controller / store limit path: a store writer that does not take the cluster lock
+		e.rc.AttachAvailableFunc(st.ID, storelimit.AddPeer, func() bool { return true })
+	case "pause": // evict-leader / grant-leader schedulers
+		err = e.rc.PauseLeaderTransfer(st.ID)
+	case "resume":
+		e.rc.ResumeLeaderTransfer(st.ID)
+	case "rmlimit":
+		e.rc.RemoveStoreLimit(st.ID)
 	case "reload":
 		err = e.reload()
 	case "reloadlc":
